@@ -145,7 +145,9 @@ def impl_nodepaths(tree_edges, other_edges, root, names, reftypes):
     rt_ids = {nm: 1000 + i for i, nm in enumerate(reftypes)}
     nodes = pd.DataFrame({
         "id": pd.array(ids + list(rt_ids.values()), dtype="Int32"),
-        "NodeClass": ["UAObject"] * len(ids) + ["UAReferenceType"] * len(rt_ids),
+        # below the root there are nodes of every class (methods, types, views, …), not only objects and variables
+        "NodeClass": ["UAObject" if i == root else ["UAObject", "UAVariable", "UAMethod", "UAObjectType", "UAVariableType", "UADataType", "UAView"][i % 7] for i in ids]
+                     + ["UAReferenceType"] * len(rt_ids),
         "BrowseName": [names[i] for i in ids] + list(rt_ids.keys()),
     })
     nodes["NodeId"] = [UANodeId(1, NodeIdType.NUMERIC, str(int(i))) for i in nodes["id"]]
